@@ -191,6 +191,7 @@ theorem C18_confinement_mechanisms :
       "atomic publish + once + channel close→receive (C15)", "function-local builder", "gws read loop goroutine only",
       "send side, single owner", "send side, single owner (sendActive guard)",
       "send side, then handler after the stream's finish() fence (C10)",
+      "per-request object, receive side single owner",
       "receive side, single owner (recvActive guard)",
       "pump, then handler after Forward returned (wg.Wait)"].contains c.why) = true := by decide
 
